@@ -111,3 +111,11 @@ CHECKS["C13"] = {
     "note": "Assumes entity dicts of one kind do not carry the marker key of another kind (decided for the supported statement forms by the C18 fragments). Trusted: CPython dict iteration order = literal order.",
 }
 NOT_APPLICABLE.pop("C13", None)
+CHECKS["C10"] = {
+    "engine": "E1 + dataclass-field model (dcmodel) + E5 rules (T-FLAGFLOW, T-MODE.*)",
+    "technique": "non-interference by def-use (the parse path never reads the mode) + symbolic assembly of the 15 per-mode dataclasses (C3 MRO, field overlay, decorator metadata) checked against the common-field table + key-effect analysis of mode-specific code + guard-atom analysis of the output filter",
+    "text": "For all DDL and all 15 modes: the mode cannot influence parsing (it is read only by the validation and the formatter), every common field of every mode's table class keeps its default-mode definition and visibility, every dialect-specific field is filtered by a list of valid modes, the filter drops a field exactly under the four metadata rules, the parse result is split exhaustively and disjointly into declared fields and table_properties, and code that runs only in some modes writes no common table field or column attribute except the documented schema->dataset rename and the MSSQL `clustered` index attribute; the in-place reference hook gets a per-column copy (so a mode cannot turn a parse into a KeyError).",
+    "design_ref": "DESIGN.md section 4 C10, section 3 T-FLAGFLOW / T-MODE",
+    "note": "Trusted: CPython dataclasses field collection and Field.metadata semantics; the decorator / class-factory shape is itself checked (T-MODE.decorator). Not decided: deep run-time equality of values across modes (follows from the above).",
+}
+NOT_APPLICABLE.pop("C10", None)
